@@ -32,5 +32,13 @@ Proof. unfold rec_read_gen, rec_layer. cbv zeta. destruct (inner n); reflexivity
 Lemma tie_fixed_read S (inner : Z -> option (list S)) W : fixed_read_gen inner W = fixed_layer W inner.
 Proof. unfold fixed_read_gen, fixed_layer. destruct (inner W); reflexivity. Qed.
 
+(** the two kinds of resumption of the generator _iter_blocks_with_overlap *)
+Lemma tie_ov_first S (inner : Z -> option (list S)) W H : ov_first_gen inner W H = ov_first W H inner.
+Proof. unfold ov_first_gen, ov_first. cbv zeta. destruct (inner W); reflexivity. Qed.
+
+Lemma tie_ov_next S (inner : Z -> option (list S)) W H c : ov_next_gen inner W H c = ov_next H c inner.
+Proof. unfold ov_next_gen, ov_next, nonempty. cbv zeta. destruct (inner H) as [[|x blk]|]; reflexivity. Qed.
+
 Print Assumptions tie_reader_params.
 Print Assumptions tie_lim_read.
+Print Assumptions tie_ov_next.
